@@ -173,7 +173,8 @@ AppendAxis(d, labs) ==     \* ds.axes.append(Axis(labs, d)) for a name not in us
      /\ dsaxes' = Append(dsaxes, new) /\ objs' = [objs EXCEPT ![new] = Obj(d, labs)] /\ UNCHANGED vars /\ direct' = direct \cup {new}
   /\ Record("append_axis", [d |-> d, labs |-> labs], TRUE)
 
-\* operations that return a new Dataset (inplace=False, copy(), assigning one of the variables to another Dataset):
+\* operations that return a new Dataset (inplace=False, copy(), assigning one of the variables to another Dataset), or a new array
+\* (ds[d] for a dimension name d: the labels of d as a variable - an array of its own, whatever is done to it afterwards):
 \* this Dataset stays exactly as it was - including the identity of its variables' axes
 Pure(kind, args) ==
   /\ Bound /\ Len(vars) > 0 /\ direct = {} /\ UNCHANGED state      \* (a copy does not carry axes that no variable uses)
@@ -220,7 +221,7 @@ Next ==
                                           /\ RelabelOne(d, i, objs[IdOf(d)].labs[i] + 1)
   \/ SetDims([q \in 1..Len(dsaxes) |-> Alt(NameOf(dsaxes[q]))])
   \/ Len(dsaxes) >= 2 /\ (SetDims(Rev(DsNames)) \/ SetDims(Tail(DsNames) \o <<Head(DsNames)>>))
-  \/ \E kind \in {"copy", "cross_assign", "rename_axes_copy", "set_axis_copy", "rename_keys_copy"} :
+  \/ \E kind \in {"copy", "cross_assign", "rename_axes_copy", "set_axis_copy", "rename_keys_copy", "dim_variable"} :
         Len(dsaxes) > 0 /\ Pure(kind, [d |-> NameOf(dsaxes[1]), n |-> "q", k |-> vars[1].key, labs |-> [j \in 1..Len(objs[dsaxes[1]].labs) |-> 10 + j]])
 
 EmitEdge == Emit => PrintT(ToJson([op |-> "ds_path", path |-> hist']))
